@@ -254,6 +254,10 @@ class Engine(CoreMixin, ExprMixin, CallMixin, StmtMixin, SpecMixin):
                 f = self.spec_frame(fr, s, entry, dict(entry.locals, result=None))
                 self.emit(s, 'raises.%s.post.%s' % (name, nm), self.spec_term(clause, s, f), clause)
         elif name in c.raises_any:
+            cond = (c.flags.get('raise_requires') or {}).get(name)
+            if cond:
+                t = self.spec_term(cond, entry.copy(), self.spec_frame(fr, entry, entry))
+                self.emit(s, 'raises.%s.only_when' % name, t, '%s may escape only when (%s)' % (name, cond))
             return
         else:
             self.emit(s, 'raises.unexpected.%s' % name, False, 'no %s may escape' % name)
